@@ -538,6 +538,7 @@ type Contract struct {
 	Assumed       bool
 	Inline        bool
 	RetClosure    string // returnsclosure NAME: the (single) result is a closure of that function
+	CallsBack     string // callsback PARAM: the function value passed as PARAM is called zero or more times
 	FuncSetGlobal string // funcset GLOBAL = f1, f2: dynamic calls through this immutable table are one of these
 	FuncSet       []string
 	FreshRes      bool
@@ -588,7 +589,7 @@ type SpecFile struct {
 
 var topKeywords = map[string]bool{"global": true, "ghost": true, "ufunc": true, "pred": true, "sfunc": true, "axiom": true, "lemma": true, "fn": true}
 var clauseKeywords = map[string]bool{"props": true, "requires": true, "ensures": true, "modifies": true, "loop": true, "safety": true,
-	"trusted": true, "pure": true, "noeffect": true, "nullable": true, "interference": true, "expect": true, "assert": true, "inline": true, "funcset": true, "returnsclosure": true,
+	"trusted": true, "pure": true, "noeffect": true, "nullable": true, "interference": true, "expect": true, "assert": true, "inline": true, "funcset": true, "returnsclosure": true, "callsback": true,
 	"freshresult": true, "nonnilresult": true, "uses": true, "spawn": true, "records": true}
 
 // extractSpecLines pulls the //@ lines out of a Go source text.
@@ -1011,6 +1012,9 @@ func parseSpecText(src, pkg, file string, assumed bool) (*SpecFile, error) {
 				cur.Inline = true
 			case "returnsclosure":
 				cur.RetClosure = strings.TrimSpace(s.rest)
+			case "callsback":
+				// callsback PARAM: the function calls the function value handed in as PARAM zero or more times
+				cur.CallsBack = strings.TrimSpace(s.rest)
 			case "funcset":
 				i := strings.Index(s.rest, "=")
 				if i < 0 {
